@@ -122,6 +122,17 @@ func (r *recorder) settle() {
 	}
 }
 
+// guarded runs fn; a panic of the code under test is recorded (no step of the specification matches a Panic event)
+// instead of killing the executor.
+func (r *recorder) guarded(what string, fn func()) {
+	defer func() {
+		if p := recover(); p != nil {
+			r.log(drv.Step{"ev": "Panic", "in": what, "what": fmt.Sprint(p)}, nil)
+		}
+	}()
+	fn()
+}
+
 func TestExec(t *testing.T) {
 	drv.QuietLogs(t)
 	scheds := drv.ReadSchedules(t)
@@ -322,29 +333,31 @@ func runCtl(t *testing.T, tr *drv.Tracer, sid int, sched []drv.Step) (hung bool)
 			defer close(th.done)
 			ret := drv.Step{"ev": "Ret", "t": id, "res": "-", "pid": noPid}
 			e.r.log(ev, nil)
-			switch op {
-			case "part":
-				ret["res"] = errText(e.wrapper.Participate(ctx, duty))
-			case "prop":
-				set := core.UnsignedDataSet{core.PubKey(fmt.Sprintf("v%d", num(st, "v"))): nil}
-				ret["res"] = errText(e.wrapper.Propose(ctx, duty, set))
-			case "sub":
-				e.wrapper.Subscribe(subscriber(str(st, "sub")))
-			case "pid":
-				ret["pid"] = structured(string(e.wrapper.ProtocolID()))
-			case "wstart":
-				e.wrapper.Start(context.WithValue(context.Background(), cKey{}, str(st, "ctx")))
-			case "setimpl":
-				e.setImpl(e.stubs[str(st, "impl")])
-			case "set":
-				if err := e.ctrl.SetCurrentConsensusForProtocol(ctx, protocol.ID(pidString(pid))); err != nil {
-					ret["res"], ret["errtxt"] = "err", err.Error()
-				} else {
-					ret["res"] = "ok"
+			e.r.guarded(op, func() {
+				switch op {
+				case "part":
+					ret["res"] = errText(e.wrapper.Participate(ctx, duty))
+				case "prop":
+					set := core.UnsignedDataSet{core.PubKey(fmt.Sprintf("v%d", num(st, "v"))): nil}
+					ret["res"] = errText(e.wrapper.Propose(ctx, duty, set))
+				case "sub":
+					e.wrapper.Subscribe(subscriber(str(st, "sub")))
+				case "pid":
+					ret["pid"] = structured(string(e.wrapper.ProtocolID()))
+				case "wstart":
+					e.wrapper.Start(context.WithValue(context.Background(), cKey{}, str(st, "ctx")))
+				case "setimpl":
+					e.setImpl(e.stubs[str(st, "impl")])
+				case "set":
+					if err := e.ctrl.SetCurrentConsensusForProtocol(ctx, protocol.ID(pidString(pid))); err != nil {
+						ret["res"], ret["errtxt"] = "err", err.Error()
+					} else {
+						ret["res"] = "ok"
+					}
+				default:
+					ret["res"] = "unknown op"
 				}
-			default:
-				ret["res"] = "unknown op"
-			}
+			})
 			e.r.log(ret, nil)
 		}()
 	}
@@ -768,11 +781,13 @@ func runIo(t *testing.T, tr *drv.Tracer, sid int, sched []drv.Step) (hung bool) 
 			go func() {
 				defer wg.Done()
 				var err error
-				if kind == "part" {
-					err = e.cur.Participate(cctx, duty)
-				} else {
-					err = e.cur.Propose(cctx, duty, set)
-				}
+				e.r.guarded(kind, func() {
+					if kind == "part" {
+						err = e.cur.Participate(cctx, duty)
+					} else {
+						err = e.cur.Propose(cctx, duty, set)
+					}
+				})
 				e.r.log(drv.Step{"ev": "QRet", "c": c, "res": classify(err)}, func() { e.returned[c] = true })
 			}()
 		case "Msg":
@@ -802,11 +817,13 @@ func runIo(t *testing.T, tr *drv.Tracer, sid int, sched []drv.Step) (hung bool) 
 				e.expired[duty] = true
 				e.mu.Unlock()
 			})
-			if emit {
-				select {
-				case e.dlC <- duty:
-				case <-e.quit:
-				}
+			if emit { // the deadliner's channel is read by the loop of Start (if that loop does not run, nobody deletes the IO)
+				go func() {
+					select {
+					case e.dlC <- duty:
+					case <-e.quit:
+					}
+				}()
 			}
 		case "Cancel":
 			e.mu.Lock()
@@ -1004,12 +1021,12 @@ func runDbg(t *testing.T, tr *drv.Tracer, sid int, sched []drv.Step) (hung bool)
 		case "add":
 			inst := mkInstance(num(st, "id"), num(st, "sz"))
 			r.log(drv.Step{"ev": "DCall", "t": th, "op": "add", "id": num(st, "id"), "sz": proto.Size(inst)}, nil)
-			dbg.AddInstance(inst)
+			r.guarded("AddInstance", func() { dbg.AddInstance(inst) })
 			r.log(drv.Step{"ev": "DRet", "t": th, "ids": []any{}}, nil)
 		case "serve":
 			r.log(drv.Step{"ev": "DCall", "t": th, "op": "serve", "id": 0, "sz": 0}, nil)
 			rec := httptest.NewRecorder()
-			dbg.ServeHTTP(rec, httptest.NewRequest("GET", "/debug/consensus", nil))
+			r.guarded("ServeHTTP", func() { dbg.ServeHTTP(rec, httptest.NewRequest("GET", "/debug/consensus", nil)) })
 			ids := decodeServed(rec.Body.Bytes())
 			if rec.Code != 200 {
 				ids = []any{-rec.Code}
